@@ -151,6 +151,13 @@ REAL_K8 = (
 
 STUB_INT = 'python_evaluate -> placeholder table (integer literal K_i denotes the symbolic integer k_i)'
 STUB_U = 'line matcher of a class unknown to exactly_lib, bound to the symbol U; its verdict on line n is the symbolic bool u[n-1]'
+STUB_X = ('text transformers of a class unknown to exactly_lib (public base class only, is_identity_transformer not '
+          'overridden) bound to the symbols X<i>: the output of X<i> is its input followed by the i:th of the characters '
+          'W, X, Y, Z (one distinct mark per position, so that the order, the omission and the repetition of a member '
+          'are all visible in the output)')
+STUB_UNTRACED = ('the real objects are parsed, resolved and constructed with CrossHair\'s tracing suspended after the '
+                 'member selectors have been made concrete (no symbolic value takes part); the transformation of '
+                 'the symbolic text runs traced')
 STUB_TMP = 'tmp-file space that refuses to be used (in-memory texts must not touch the file system)'
 STUB_SRC = ('texts of a StringSource class unknown to exactly_lib (public base classes only) with a symbolic '
             'may_depend_on_external_resources flag; as_file is an object whose open() iterates the lines')
@@ -295,15 +302,24 @@ def k9_nested_composition(s: str, by_ref: bool, m0: int, m1: int, m2: int, m3: i
     n = c['n']
     # which transformer stands at each position: symbolic selectors, made concrete (the syntax must be concrete)
     members = [ob.pick(c['members'], m) for m in (m0, m1, m2, m3)[:n]]
+    # ('X',) = the transformer of unknown class of this position: appends the character marks[i] (all different)
+    members = [('X', i) if members[i] == ('X',) else members[i] for i in range(n)]
     if ob.concrete_bool(by_ref):
         # every member is written as a reference to a text-transformer symbol M<i> defined as the member
         leaves = [('ref', 'M%d' % i, members[i]) for i in range(n)]
     else:
         leaves = members
     tree = L.instantiate(c['shape'], leaves)
-    env = L.Env()
-    transformer = L.real_transformer(tree, env)
-    says_identity = transformer.is_identity_transformer
+    env = L.Env(marks=c['marks'])
+    if c['untraced_build']:
+        # every selector is concrete by now and the members have no symbolic operand: parsing, resolving and
+        # constructing the REAL objects involves no symbolic value - done with CrossHair's tracing suspended
+        with L.untraced():
+            transformer = L.real_transformer(tree, env)
+            says_identity = transformer.is_identity_transformer
+    else:
+        transformer = L.real_transformer(tree, env)
+        says_identity = transformer.is_identity_transformer
     out = transformer.transform(L.text_model(s))
     with out.contents().as_lines as lines:
         real_lines = list(lines)
@@ -741,26 +757,26 @@ def obligations(tier: str) -> List[Ob]:
     a2b = ('replace', False, None, 'a', 'b')
     b2a = ('replace', False, None, 'b', 'a')
     tnl = ('strip-tnl',)
-    members3 = (id_, a2b, b2a)
-    members4 = (id_, a2b, b2a, tnl)
+    members_x = (id_, ('X',))
+    members_real = (id_, a2b, b2a, tnl)
     k9_shapes = [
-        # name, shape (numbers = positions of the members), members, in quick
-        ('flat3', ('seq', 0, 1, 2), members4, True),
-        ('left', ('seq', ('seq', 0, 1), 2), members4, True),
-        ('right', ('seq', 0, ('seq', 1, 2)), members4, True),
-        ('left-symbol', ('seq', ('ref', 'S', ('seq', 0, 1)), 2), members4, True),
-        ('right-symbol', ('seq', 0, ('ref', 'S', ('seq', 1, 2))), members4, True),
-        ('attached-1', ('attach', ('seq', 0, 1)), members4, True),
-        ('attached-2', ('attach', ('seq', 0, 1), 2), members4, True),
-        ('attached-2-symbol', ('attach', 0, ('ref', 'S', ('seq', 1, 2))), members4, False),
-        ('attached-ddv-2', ('attach-ddv', ('seq', 0, 1), 2), members4, True),
-        ('middle', ('seq', 0, ('seq', 1, 2), 3), members3, True),
-        ('left-left', ('seq', ('seq', ('seq', 0, 1), 2), 3), members3, True),
-        ('right-right', ('seq', 0, ('seq', 1, ('seq', 2, 3))), members3, False),
-        ('left-right', ('seq', ('seq', 0, 1), ('seq', 2, 3)), members3, True),
-        ('symbol-symbol', ('seq', ('ref', 'S', ('seq', 0, 1)), ('ref', 'R', ('seq', 2, 3))), members3, False),
-        ('symbol-in-symbol', ('seq', ('ref', 'S', ('seq', ('ref', 'R', ('seq', 0, 1)), 2)), 3), members3, True),
-        ('attached-3', ('attach', 0, ('seq', 1, 2), 3), members3, False),
+        # name, shape (numbers = positions of the members), with real members: in quick / in thorough
+        ('flat', ('seq', 0, 1, 2), False, True),
+        ('left', ('seq', ('seq', 0, 1), 2), True, True),
+        ('right', ('seq', 0, ('seq', 1, 2)), False, True),
+        ('left-symbol', ('seq', ('ref', 'S', ('seq', 0, 1)), 2), False, True),
+        ('right-symbol', ('seq', 0, ('ref', 'S', ('seq', 1, 2))), True, True),
+        ('attached-1', ('attach', ('seq', 0, 1)), True, True),
+        ('attached-2', ('attach', ('seq', 0, 1), 2), True, True),
+        ('attached-2-symbol', ('attach', 0, ('ref', 'S', ('seq', 1, 2))), False, True),
+        ('attached-ddv-2', ('attach-ddv', ('seq', 0, 1), 2), False, True),
+        ('attached-3', ('attach', 0, ('seq', 1, 2), 3), False, False),
+        ('middle', ('seq', 0, ('seq', 1, 2), 3), False, False),
+        ('left-left', ('seq', ('seq', ('seq', 0, 1), 2), 3), False, False),
+        ('right-right', ('seq', 0, ('seq', 1, ('seq', 2, 3))), False, False),
+        ('left-right', ('seq', ('seq', 0, 1), ('seq', 2, 3)), False, True),
+        ('symbol-symbol', ('seq', ('ref', 'S', ('seq', 0, 1)), ('ref', 'R', ('seq', 2, 3))), False, False),
+        ('symbol-in-symbol', ('seq', ('ref', 'S', ('seq', ('ref', 'R', ('seq', 0, 1)), 2)), 3), False, False),
     ]
 
     def positions(shape):
@@ -768,19 +784,32 @@ def obligations(tier: str) -> List[Ob]:
             return 1
         return sum(positions(x) for x in shape[1:] if isinstance(x, (int, tuple)))
 
-    def a9(name, shape, members, maxlen, leaf_symbols, timeout=300, expect=ob.CONFIRM, oracle_bug=None):
+    def shape_kinds(shape):
+        # a tree with the node kinds of the shape, for the list of real functions
+        if isinstance(shape, int):
+            return ('ref', 'M', id_)
+        if shape[0] == 'ref':
+            return ('ref', shape[1], shape_kinds(shape[2]))
+        return (shape[0],) + tuple(shape_kinds(x) for x in shape[1:])
+
+    def a9(name, shape, members, maxlen, leaf_symbols, timeout=300, expect=ob.CONFIRM, oracle_bug=None,
+           untraced_build=True):
         n = positions(shape)
-        case = dict(shape=shape, n=n, members=members, maxlen=maxlen, alphabet='ab\n', leaf_symbols=leaf_symbols)
+        case = dict(shape=shape, n=n, members=members, maxlen=maxlen, alphabet='ab\n', leaf_symbols=leaf_symbols,
+                    marks='WXYZ', untraced_build=untraced_build)
         if oracle_bug:
             case['oracle_bug'] = oracle_bug
         names = ['M%d' % i for i in range(n)]
-        syntax = L.render_transformer(L.instantiate(shape, [('ref', x, id_) for x in names]))
-        defs = L.symbol_definitions(L.instantiate(shape, [('ref', x, id_) for x in names]))
-        where = ['%s = %s' % (k, L.render_transformer(v)) for k, v in defs.items() if k not in names]
+        named = L.instantiate(shape, [('ref', x, id_) for x in names])
+        where = ['%s = %s' % (k, L.render_transformer(v)) for k, v in L.symbol_definitions(named).items()
+                 if k not in names]
+        with_x = ('X',) in members
         bound = ('`%s`%s: every choice of each of the %d members %s from {%s}, written in place%s; every text s, '
                  '|s| <= %d over {a, b, new-line}' % (
-                     syntax, (' where ' + ', '.join(where)) if where else '', n, ', '.join(names),
-                     ', '.join('`%s`' % L.render_transformer(x) for x in members),
+                     L.render_transformer(named), (' where ' + ', '.join(where)) if where else '', n, ', '.join(names),
+                     ', '.join('a transformer X_i of unknown class that appends the i:th of the characters W, X, Y, Z'
+                               if x == ('X',)
+                               else '`%s`' % L.render_transformer(x) for x in members),
                      ' or as a reference to a text-transformer symbol defined as it' if leaf_symbols else '', maxlen))
         if oracle_bug == 'order':
             bound = 'seeded oracle error (the reference applies the members right to left); ' + bound
@@ -791,25 +820,19 @@ def obligations(tier: str) -> List[Ob]:
             name='K9:' + name, fn='k9_nested_composition', case=case, kernel='K9',
             bound=bound.replace('\n', '\\n'), timeout=timeout * tscale, expect=expect,
             real=tuple(REAL_PARSE_T) + tuple(_reals(('seq',) + tuple(members) + (shape_kinds(shape),))),
-            stubs=(STUB_TMP,), outside=(OUT_SRC, OUT_UNI, OUT_RE),
+            stubs=(STUB_TMP,) + ((STUB_X,) if with_x else ()) + ((STUB_UNTRACED,) if untraced_build else ()),
+            outside=(OUT_SRC, OUT_UNI) + (() if members == members_x else (OUT_RE,)),
             entry='parse_string_transformer.parsers().full (and the definitions of the symbols) -> '
                   'is_identity_transformer, transform(text).contents()'))
 
-    def shape_kinds(shape):
-        # a tree with the node kinds of the shape, for the list of real functions
-        if isinstance(shape, int):
-            return ('ref', 'M', id_)
-        if shape[0] == 'ref':
-            return ('ref', shape[1], shape_kinds(shape[2]))
-        return (shape[0],) + tuple(shape_kinds(x) for x in shape[1:])
-
-    for name, shape, members, in_quick in k9_shapes:
-        if quick and not in_quick:
-            continue
-        a9(name, shape, members, 2 if quick else 3, leaf_symbols=not quick or name in ('left', 'right'))
-    a9('seeded-oracle-error-order', ('seq', ('seq', 0, 1), 2), members3, 1, False, expect=ob.REFUTE,
+    for name, shape, real_in_quick, real_in_thorough in k9_shapes:
+        a9(name + '.X', shape, members_x, 1 if quick else 3, leaf_symbols=not quick or name in ('left', 'right'))
+        if real_in_quick if quick else real_in_thorough:
+            a9(name + '.real', shape, members_real if positions(shape) <= 3 else members_real[:3], 1 if quick else 2,
+               leaf_symbols=not quick and name in ('left', 'right'))
+    a9('seeded-oracle-error-order', ('seq', ('seq', 0, 1), 2), members_x, 1, False, expect=ob.REFUTE,
        oracle_bug='order')
-    a9('seeded-oracle-error-attribute', ('seq', ('seq', 0, 1), 2), members3, 1, False, expect=ob.REFUTE,
+    a9('seeded-oracle-error-attribute', ('seq', ('seq', 0, 1), 2), members_x, 1, False, expect=ob.REFUTE,
        oracle_bug='attribute')
 
     # ---- a few primitives over the whole of printable ASCII + tab + new-line
